@@ -378,6 +378,9 @@ func leaks(p *prepared, a *analysis, o *observation) []string {
 			found["parameter "+k] = true
 		}
 	}
+	if a.js["active"] == true {
+		found["active:true"] = true
+	}
 	for _, uc := range userClaims {
 		if strings.Contains(a.text, uc) {
 			found["user claim"] = true
